@@ -28,12 +28,16 @@ file, else Template/loader argument, else the default), not taken from tmplref.
       set to None and there is no raw tag and no apply, the output has no < > " ' at all
   (c) metamorphic: re-run with the setting of one file A changed (directive replaced, or appended at the
       end of A): slices not attributed to A are byte-identical in the real outputs.
+Expression tags are plain names and compound shapes (calls to escape/xhtml_escape/url_escape/squeeze/
+json_encode/linkify, concatenations such as escape(a) + str(b), conditional expressions, method calls,
+%-formatting) with an adversarial value in every operand; the property is about the VALUE of the whole
+expression, so `{{ escape(a) }}` under an escaping setting is f(escape(a)) -- double-escaped by default.
 Values whose rendering raises (NameError from an unset local ...) must raise the same type in both.
 
 Related open finding (filed under C19, the template is ill-formed): `{% autoescape %}` without a function
 name is accepted and silently turns escaping off for the file (findings_inbox/C19-autoescape-empty-accepted.md).
 
-Sensitivity (quick tier, seed 1, scratch copy of /repo/tornado; all 10 caught; clause after shrinking):
+Sensitivity (quick tier, seed 1, scratch copy of /repo/tornado; all 11 caught; clause after shrinking):
   M1 _Expression.generate consults the root template (include_stack[0]) instead of current_template -> C20.meta_output
   M2 values that are not str/bytes are str()-ed but not escaped                                    -> C20.special_char_without_unescaped_source
   M3 _CodeWriter.include() does not restore current_template on exit                              -> C20.meta_output
@@ -48,6 +52,10 @@ Sensitivity (quick tier, seed 1, scratch copy of /repo/tornado; all 10 caught; c
      (bool / plain number under the custom escaper bresc: "False" instead of "[False]")
   M10 Template.__init__ tests `if loader:` before the explicit autoescape= argument (template-level    -> C20.output (seeds 1, 2, 3;
      setting ignored whenever a loader is present); was missed before the per-file loader axis           after <= 185 cases)
+  M11 expression tags whose source starts with escape( / xhtml_escape( and ends with ')' are created  -> C20.output / C20.meta_output
+     raw ("already escaped"): `{{ escape(a) + str(b) }}` emits b unescaped, `{{ escape(v) }}` bypasses     (seeds 1, 2, 3; after <= 114 cases;
+     a custom escaper; was missed before compound expressions (helper calls, concatenation,               C19.output catches it too)
+     conditional expressions, method calls, %-formatting over adversarial operands) joined the pool
 """
 import copy
 import logging
@@ -93,8 +101,22 @@ _log.propagate = False
 SPECIALS = b"<>\"'&"
 ENTITIES = (b"&amp;", b"&lt;", b"&gt;", b"&quot;", b"&#x27;")
 
+# expression shapes beyond plain names: calls to the namespace helpers, concatenation, conditional
+# expressions, method calls, string formatting -- every operand adversarial, every shape total over the
+# value types (str(...) first).  The property speaks about the VALUE of the whole expression: under an
+# escaping setting the slice is f(value), so `{{ escape(a) }}` under the default is double-escaped.
+COMPOUND_EXPRS = [
+    "escape(str(a0))", "xhtml_escape(str(a1))", "escape(str(a2))", "xhtml_escape(str(a3))",
+    "escape(str(a0)) + str(a1)", "escape(str(a2)) + str(a3).strip()", "xhtml_escape(str(a4)) + str(a0)",
+    "escape(str(a1)) if not a2 else str(a2)", "escape(str(a3)) if z else str(a4)", "xhtml_escape(str(a0)) or str(a1)",
+    "escape(str(a4)) + '%s' % (a3,)", "escape(str(a0)) + squeeze(str(a2))",
+    "url_escape(str(a1))", "squeeze(str(a2))", "json_encode(str(a3))", "linkify(str(a4))", "linkify(str(a0)) + str(a1)",
+    "str(a0) + str(a1)", "str(a2).strip()", "str(a3).upper()", "'%s=%s' % (a0, a1)", "'%s' % (a4,)",
+    "str(a1) if t else escape(str(a2))", "(str(a3) + escape(str(a4)))", "[escape(str(a0)), a1][1]",
+]
+
 POOLS = {
-    "value_exprs": ["a0", "a1", "a2", "a3", "a4", "a0", "a1", "a2", "a3", "a4", "x0", "v0"],
+    "value_exprs": ["a0", "a1", "a2", "a3", "a4"] * 4 + ["x0", "v0"] + COMPOUND_EXPRS,
     "conds": ["t", "z", "True", "False", "a0", "t"],
     "for_heads": ["x0 in vals", "i0 in range(2)", "x0 in [a1, a2]"],
     "set_stmts": ["v0 = a0", "v0 = a3", "v1 = a1"],
@@ -414,6 +436,9 @@ def run_case(ctx, case):
     adversarial_through = [False]
     by_var = {"a%d" % i: make_value(v) for i, v in enumerate(case["values"])}
     spec_by_var = {"a%d" % i: v[0] for i, v in enumerate(case["values"])}
+    eval_env = {"escape": escape.xhtml_escape, "xhtml_escape": escape.xhtml_escape, "url_escape": escape.url_escape,
+                "json_encode": escape.json_encode, "squeeze": escape.squeeze, "linkify": escape.linkify, "t": True, "z": 0}
+    eval_env.update(by_var)
 
     def check_slice(sl, real_bytes):
         """(a) + (b) for one slice whose real bytes are real_bytes."""
@@ -442,6 +467,13 @@ def run_case(ctx, case):
             labels.add("expr_under_template_arg_not_loader_default")
             if through:
                 labels.add("template_arg_through_include_or_block")
+        if sl.src not in by_var and sl.src in COMPOUND_EXPRS:
+            labels.add("compound_expr")
+            if sl.src.startswith(("escape(", "xhtml_escape(")):
+                labels.add("expr_starting_with_escape_call")
+            want_plain = value_text(eval(sl.src, dict(eval_env))).encode("utf-8")
+            if sl.plain != want_plain:
+                raise HarnessError("reference evaluated %s to %r, expected %r" % (sl.src, sl.plain, want_plain))
         if sl.src in by_var:
             want_plain = value_text(by_var[sl.src]).encode("utf-8")
             if sl.plain != want_plain:
